@@ -31,8 +31,11 @@ class BayesianEstimator(ParameterEstimator):
                     f"Bayesian Parameter Estimation works only on models with all observed variables. Found latent variables: {model.latents}"
                 )
 
-            if isinstance(model, DAG):
-                model = BayesianNetwork(model.edges())
+            # A BayesianNetwork is a DAG too: only convert plain DAGs, and keep their isolated nodes.
+            if not isinstance(model, BayesianNetwork):
+                model_bn = BayesianNetwork(model.edges())
+                model_bn.add_nodes_from(model.nodes())
+                model = model_bn
 
         super(BayesianEstimator, self).__init__(model, data, **kwargs)
 
